@@ -54,6 +54,12 @@ type respClient struct {
 	// Hooks registers a message hook and an environment-change hook whose calls are recorded among the
 	// deliveries (plain builds only: the hooks run in the reader task).
 	Hooks bool
+	// Twin: a second connection of the same process receives a different response at the same time (small
+	// reads, one event per packet). What the first connection delivers may not depend on it.
+	Twin bool
+	// SendAfter > 0: when the drain is over the client sends one more message of about that many bytes (what
+	// the response left behind - packet size, queue state - is used by the next request).
+	SendAfter int
 }
 
 type respResult struct {
@@ -65,6 +71,9 @@ type respResult struct {
 	FailedAt  time.Duration // simulated time at which the terminal condition was set
 	TermSet   bool
 	Sim       *simrt.Sim
+	AfterErr  string
+	TwinErr   string
+	TwinPkgs  int
 	Peer      *TDSPeer
 	ReaderEnd bool
 }
@@ -76,6 +85,10 @@ func flat(pkts [][]byte) []byte {
 	}
 	return w
 }
+
+// twinStatuses is the number of RETURNSTATUS packages in the middle of the twin connection's response
+// (RETURNSTATUS, DONE(more), twinStatuses x RETURNSTATUS, DONE(more), DONE(final)).
+const twinStatuses = 60
 
 // runResp executes one simulated client/peer exchange.
 func runResp(cfg simrt.Config, d respDelivery, c respClient) *respResult {
@@ -150,6 +163,24 @@ func runResp(cfg simrt.Config, d respDelivery, c respClient) *respResult {
 		}
 	}
 	s.Net.Setup = func(cn *simrt.Conn) { cn.ReadSizes = c.ReadSizes }
+	if c.Twin {
+		p.NewSub = func(cn *simrt.Conn) *TDSPeer {
+			sp := SubPeer(s, cn)
+			sp.Async = true
+			sp.OnMsg = func(m *ClientMsg) {
+				var body []byte
+				body = append(body, peer.ReturnStatus(7)...)
+				body = append(body, peer.Done(1, 0, 3)...)
+				for i := 0; i < twinStatuses; i++ {
+					body = append(body, peer.ReturnStatus(int32(1000+i))...)
+				}
+				body = append(body, peer.Done(1, 0, 4)...)
+				body = append(body, peer.Done(0, 0, 0)...)
+				sp.SendResponse(0, body, []int{3, 20, 300})
+			}
+			return sp
+		}
+	}
 
 	res.Out = s.Run(func() {
 		info := MkInfo(c.QueueSize, c.ReadTimeoutS, c.DebugLog)
@@ -176,6 +207,39 @@ func runResp(cfg simrt.Config, d respDelivery, c respClient) *respResult {
 				r.Seq = simrt.Record("hook", "env", "", 0)
 				res.Recs = append(res.Recs, r)
 			})
+		}
+		if c.Twin {
+			twin := simrt.Spawn("twin", func() {
+				conn2, err := tds.NewConn(context.Background(), MkInfo(100, c.ReadTimeoutS, false))
+				if err != nil {
+					res.TwinErr = "connect: " + err.Error()
+					return
+				}
+				defer conn2.Close()
+				ch2, err := conn2.NewChannel()
+				if err != nil {
+					res.TwinErr = "channel: " + err.Error()
+					return
+				}
+				ctx2, cancel2 := simrt.WithTimeout(context.Background(), c.DrainFor)
+				defer cancel2()
+				if err := ch2.SendPackage(ctx2, &tds.LanguagePackage{Cmd: "twin"}); err != nil {
+					res.TwinErr = "send: " + err.Error()
+					return
+				}
+				for n := 0; n < 4*twinStatuses; n++ {
+					pkg, err := ch2.NextPackage(ctx2, true)
+					if err != nil {
+						res.TwinErr = "receive: " + err.Error()
+						return
+					}
+					res.TwinPkgs++
+					if d, ok := pkg.(*tds.DonePackage); ok && d.Status == tds.TDS_DONE_FINAL {
+						return
+					}
+				}
+			})
+			defer simrt.Join(twin)
 		}
 		if err := ch.SendPackage(ctx, &tds.LanguagePackage{Cmd: "q"}); err != nil {
 			res.SendErr = err.Error()
@@ -224,6 +288,14 @@ func runResp(cfg simrt.Config, d respDelivery, c respClient) *respResult {
 				continue
 			}
 			res.Recs = append(res.Recs, recPkg(pkg))
+		}
+		if c.SendAfter > 0 {
+			simrt.Record("send-after", "", "", int64(c.SendAfter))
+			ctx3, cancel3 := simrt.WithTimeout(context.Background(), 5*time.Second)
+			defer cancel3()
+			if err := ch.SendPackage(ctx3, &tds.LanguagePackage{Cmd: strings.Repeat("x", c.SendAfter)}); err != nil {
+				res.AfterErr = err.Error()
+			}
 		}
 	})
 	if p.Conn != nil {
